@@ -335,7 +335,7 @@ func c06DHCP(c *ev.Collector, rt *rapid.T) {
 func c06LLDP(c *ev.Collector, rt *rapid.T) {
 	l := genNew(rt).LLDP()
 	c.Label("family=lldp")
-	buf := make([]byte, 600)
+	buf := make([]byte, 64+len(l.Val.Chassis.Data)+len(l.Val.Port.Data))
 	n, err := l.Val.Read(buf)
 	if err != nil {
 		c.Report(rt, "C06|LLDP|encode-error", err.Error(), nil)
@@ -349,7 +349,7 @@ func c06LLDP(c *ev.Collector, rt *rapid.T) {
 	// the three TLVs in order, intact
 	off := 0
 	for i, tlv := range []interface{ Read([]byte) (int, error) }{&l.Val.Chassis, &l.Val.Port, &l.Val.TTL} {
-		tb := make([]byte, 300)
+		tb := make([]byte, 600)
 		m, _ := tlv.Read(tb)
 		if off+m > n || !bytes.Equal(buf[off:off+m], tb[:m]) {
 			c.Report(rt, "C06|*protocol.LLDP|embed|child-not-intact", fmt.Sprintf("TLV %d (%s) not intact at offset %d of %s", i, hx(tb[:m]), off, hx(buf[:n])), hx(buf[:n]))
